@@ -85,7 +85,11 @@ theorem unknown_state_stores_verbatim (n : Nat) (m m' : M) (t : Tok) (hu : m.st 
 
 /-! ## Placement of a core option (one-step statements, any task signature) -/
 
-/-- PLACEMENT, boolean core flag (partial: one step, no pending flag).  Handled inside a task context — whatever the
+/-- PLACEMENT, boolean core flag (partial: one step, no pending flag).
+    EXCLUDED POINT (hypothesis `hflt : mt.flag = none`, more generally "the machine is not waiting for a value"):
+    directly after a bare OPTIONAL-value flag — of the task or of the core (`-l`/`--list`, `-h`/`--help`) — the next token
+    is taken as that flag's value unless it is a flag of the TASK; a core flag is not looked up at that point, so it is
+    swallowed (`core_optional_then_core_flag_counterexample`, known finding C18-core-optional-then-core-flag).  Handled inside a task context — whatever the
     task's own arguments, even with positionals still missing — an unshadowed boolean core flag has exactly the effect
     it has in the core context: the same core argument gets the same value; the task context, the finished contexts
     and the unparsed list are untouched. -/
@@ -106,7 +110,8 @@ theorem core_flag_placement_invariant_partial (mc mt : M) (c ic : Ctx) (tok : To
   ⟨_, _, core_bool_in_core mc ic tok i a a' hstc hcic hic hflc hf ha ht hs,
     core_bool_in_task mt c ic tok i a a' hstt hcit hct hit hflt hcf hcinv hl hf ha hh ht hs, rfl, rfl, rfl, rfl, rfl, rfl⟩
 
-/-- PLACEMENT, value-taking core flag, spaced spelling (partial: two steps).  Inside a task context the flag token
+/-- PLACEMENT, value-taking core flag, spaced spelling (partial: two steps).  Same excluded point as above
+    (`hfl : m.flag = none`: not directly after a bare optional-value flag).  Inside a task context the flag token
     makes the machine point at the CORE argument and the following token becomes its value; the task context
     is untouched even when the task still lacks positionals (so `inv t2 -T 5 posval` works). -/
 theorem core_value_flag_placement_partial (m : M) (c ic : Ctx) (tok v : Tok) (i : Nat) (a a' : Arg)
@@ -224,6 +229,29 @@ example : (effect (programParse coreCtx c18Reg (argvOf ["t2", "-p", "val"]))).ma
 example : (programParse coreCtx c18Reg (argvOf ["-e", "t1", "--flag", "t2", "x", "--", "--echo", "y  z", "--", "t1"])).toOption.map
             (fun r => (r.unparsed, r.remainder)) =
           some (argvOf ["t1", "--flag", "t2", "x"], "--echo y  z -- t1".toList) := by decide
+/-- KNOWN FINDING C18-core-optional-then-core-flag (the point the `_partial` placement theorems exclude).
+    Inside a task's argument list a bare core optional-value flag (`-l`/`--list`) directly followed by another core
+    flag swallows that flag as its value, while before the tasks the same two tokens mean "list" + the second flag:
+    `handle` tests `waiting_for_flag_value` before it looks the token up among the core flags, and the rollback of
+    `parse_argv` for a pending optional value consults only the flags of the current (task) context.
+    Real table of core arguments (`Generated/Program.lean`). -/
+theorem core_optional_then_core_flag_counterexample :
+    -- before the task: list = True, echo on
+    (programParse coreCtx c18Reg (argvOf ["-l", "-e", "t1"])).toOption.map
+        (fun r => (r.core.valueOf "list".toList, r.core.valueOf "echo".toList)) = some (.b true, .b true) ∧
+    -- inside the task's argument list: "-e" became the list root, echo stays off
+    (programParse coreCtx c18Reg (argvOf ["t1", "-l", "-e"])).toOption.map
+        (fun r => (r.core.valueOf "list".toList, r.core.valueOf "echo".toList)) = some (.s "-e".toList, .b false) ∧
+    -- the witness of the finding: `-l -F nested t1` lists in nested format, `t1 -l -F nested` does not even parse
+    (programParse coreCtx c18Reg (argvOf ["-l", "-F", "nested", "t1"])).toOption.map
+        (fun r => (r.core.valueOf "list".toList, r.core.valueOf "list-format".toList)) = some (.b true, .s "nested".toList) ∧
+    (programParse coreCtx c18Reg (argvOf ["t1", "-l", "-F", "nested"])).toOption.map
+        (fun r => (r.core.valueOf "list".toList, r.core.valueOf "list-format".toList)) = none ∧
+    -- a flag of the TASK after the bare core flag is fine (the documented rule): list = True, t1's flag set
+    (programParse coreCtx c18Reg (argvOf ["t1", "-l", "--flag"])).toOption.map
+        (fun r => (r.core.valueOf "list".toList, r.tasks.map (fun c => c.valueOf "flag".toList))) = some (.b true, [.b true]) := by
+  decide
+
 /-- hypotheses of `core_flag_placement_invariant_partial` are satisfiable: `-e` in `t2`'s context with `pos` still missing -/
 example : ∃ i a a', assoc? "-e".toList coreCtx.flags = some i ∧ coreCtx.args[i]? = some a ∧
     a.spec.names.headD [] ≠ "help".toList ∧ a.takesValue = false ∧ a.setValue (.b true) = .ok a' ∧
